@@ -474,6 +474,7 @@ PROPS["C01"] = dict(
                "for call/return, locals and jumps. The program dimension is enumerated, not solver-quantified.",
     level_note="Trusted: Kani/CBMC; the reference semantics in harness/src/c01.rs; that the hand-assembled shapes "
                "match what the compiler emits (the compiler is outside symbolic reach).",
+    mem_gb=18, jobs=3,
     design_ref="DESIGN.md §3 C01, §3.0",
     cap=dict(quick=240, thorough=240),
     harnesses=[
@@ -546,6 +547,7 @@ PROPS["C04"] = dict(
                "wrong-kind operands: all operand values, small concrete stack sizes / limits / budgets; every "
                "reachable panic, overflow, out-of-bounds access or failed unwrap in the driven code is a counterexample.",
     level_note="Trusted: Kani/CBMC; sizes are concrete and small; compile-time totality is not covered.",
+    mem_gb=18, jobs=3,
     design_ref="DESIGN.md §3 C04",
     cap=dict(quick=240, thorough=240),
     harnesses=[
@@ -790,4 +792,115 @@ PROPS["C07"] = dict(
         ("c07_pop_then_append_pre3", "quick", "pop then append reuses the freed index"),
         ("c07_nil_and_real_keys", "thorough", "nil key and any finite non-zero real key"),
     ]],
+)
+
+# --------------------------------------------------------------------------- C03
+PROPS["C03"] = dict(
+    functions=["Vm::_run (budget counter), Vm::run_function (nested run), instr_execution::call_native, verif_hooks::count_dispatch"],
+    bounds="budgets N solver-chosen in 1..=5 on an endless Goto loop, 4..=7 on a 3-instruction program, 3..=5 on a "
+           "native that re-enters the interpreter on an endless script function after two outer instructions",
+    outside="budgets > 7 (the decrement-and-compare is the same code at every N: stated, not proved), compiled "
+            "programs, stdlib callbacks (sort/min/max), recursion deeper than one nested run",
+    explanation="With the dispatch-counter hook the solver decides, for every budget in the range, that no more than N "
+                "instructions are dispatched in total (including inside a nested run_function), that exhaustion is "
+                "reported as Timeout, and that a program needing fewer instructions gives the same result for every "
+                "sufficient budget.",
+    assumptions=["alloc::fmt::format stubbed; hand-assembled programs"],
+    level_text="Bounded model checking with Kani/CBMC of the interpreter's instruction budget with solver-chosen budgets "
+               "on three program shapes (endless loop, terminating program, native re-entering an endless callback).",
+    level_note="Trusted: Kani/CBMC; the dispatch counter hook; small budgets.",
+    design_ref="DESIGN.md §3 C03",
+    cap=dict(quick=420, thorough=1800), mem_gb=18, jobs=3,
+    harnesses=[
+        _vm("c03", "c03_endless_loop", dispatches=6, bounds="[Goto 0] under budget 1..=5"),
+        _vm("c03", "c03_sufficient_budget", dispatches=4, bounds="[int x][SetGlobal 0][Exit] under budget 4..=7"),
+        _vm("c03", "c03_nested_budget", "thorough", dispatches=6, bounds="native -> run_function(endless) under budget 3..=5",
+            limits={r"vm::Vm::<.*>::_run$": 1, r"vm::Vm::<.*>::run_function$": 0}),
+    ],
+)
+
+# --------------------------------------------------------------------------- C06
+PROPS["C06"] = dict(
+    functions=["instr_execution::{register_upvalue,read_upvalue,write_upvalue,close_upvalues,_close_upvalues,stack_offset}, "
+               "Vm::_run dispatch of CopyLast/RegisterUpvalue/ReadUpvalue/SetUpvalue/CloseUpvalue, RuntimeData::init_upvalue, "
+               "CardIndex::as_handle, Handle::{from_u64,from_bytes,add}"],
+    bounds="frame offsets 0,2,3 and local indices 0,1 (concrete per harness), slot contents solver-chosen over all "
+           "i64; two sibling closures; one write/read through an upvalue from a callee frame; close at scope exit; "
+           "closure-site labels for function indices 0..=7 and two-level card paths with sub-indices 0..=15",
+    outside="compiled closure shapes (the compiler is outside symbolic reach), nesting deeper than one level "
+            "(non-local upvalues), closures in loops, closure sites in different modules (the label does not depend "
+            "on the module at all: see known findings), garbage collection of captured variables (C02)",
+    explanation="Per frame offset / local index the solver decides over all slot contents that the registered upvalue "
+                "aliases exactly the enclosing frame's local, is shared between sibling closures, that writes and reads "
+                "through it reach that variable from another frame, and that after CloseUpvalue the closure keeps its "
+                "own copy. Label identity: no two closure sites in the bounded index space share a label.",
+    assumptions=["hand-assembled instruction sequences in the shape compiler.rs emits for closures"],
+    level_text="Bounded model checking with Kani/CBMC of the interpreter's upvalue instructions on a small VM (all slot "
+               "values, enumerated frame offsets) and of the closure label function over a bounded index space.",
+    level_note="Trusted: Kani/CBMC; shapes enumerated; compiler not covered.",
+    design_ref="DESIGN.md §3 C06",
+    cap=dict(quick=420, thorough=1800), mem_gb=18, jobs=3,
+    harnesses=[
+        _vm("c06", "c06_capture_off0_idx0", "thorough", dispatches=3, bounds="capture local 0 at frame offset 0", objects=True),
+        _vm("c06", "c06_capture_off0_idx1", "thorough", dispatches=3, bounds="capture local 1 at frame offset 0", objects=True),
+        _vm("c06", "c06_capture_off2_idx0", dispatches=3, bounds="capture local 0 at frame offset 2", objects=True),
+        _vm("c06", "c06_capture_off3_idx1", "thorough", dispatches=3, bounds="capture local 1 at frame offset 3", objects=True),
+        _vm("c06", "c06_shared_capture", dispatches=3, bounds="two closures capture the same local", objects=True),
+        _vm("c06", "c06_read_write_upvalue_off0", "thorough", dispatches=3, bounds="SetUpvalue/ReadUpvalue from a callee frame", objects=True),
+        _vm("c06", "c06_read_write_upvalue_off2", dispatches=3, bounds="same with the enclosing frame at offset 2", objects=True),
+        _vm("c06", "c06_close_keeps_last_value", dispatches=2, bounds="CloseUpvalue then overwrite the dead slot", objects=True),
+        H("c06", "c06_closure_label_injective", "thorough", bounds="labels of closure sites: f 0..=7, path (0..=15, 0..=15)"),
+    ],
+)
+
+# --------------------------------------------------------------------------- C15
+PROPS["C15"] = dict(
+    functions=["Vm::_run error construction (payload_to_error closure: trace lookup at the failing instruction, call "
+               "chain from the call frames), CaoHashMap<u32,Trace>::get, Trace::clone"],
+    bounds="programs [ScalarNil][failing instruction][Exit] with a 4-entry trace map; failing instruction: CallNative "
+           "of a missing native (4 operand bytes), GetProperty/CallFunction on an integer (no operands), ReadUpvalue "
+           "outside a closure (4 operand bytes), ScalarInt on a full stack (8 operand bytes), Timeout; call depth 0 or "
+           "1 extra frame; operand values solver-chosen",
+    outside="what the compiler records in the trace map and under which CardIndex (compile() is outside symbolic "
+            "reach), compile-error locations, namespaces of sub-modules, deeper call chains",
+    explanation="For each failing opcode the first trace entry must be the one keyed by the failing instruction's "
+                "first byte and the second the one keyed by the innermost frame's call-site address.",
+    assumptions=["hand-built trace map with distinct card indices; alloc::fmt::format stubbed"],
+    level_text="Bounded model checking with Kani/CBMC of the interpreter's error-location construction for six failing "
+               "instruction kinds at call depth 0/1 on a small VM. The compiler half (which index a card gets) is outside.",
+    level_note="Trusted: Kani/CBMC; hand-built trace maps.",
+    design_ref="DESIGN.md §3 C15",
+    cap=dict(quick=600, thorough=1800), mem_gb=22, jobs=2,
+    harnesses=[
+        _vm("c15", "c15_missing_native_depth0", dispatches=2, bounds="missing native at depth 0"),
+        _vm("c15", "c15_missing_native_depth1", "thorough", dispatches=2, bounds="missing native below one call frame"),
+        _vm("c15", "c15_get_property_depth0", "thorough", dispatches=2, bounds="GetProperty on an integer"),
+        _vm("c15", "c15_call_non_function_depth1", dispatches=2, bounds="CallFunction on an integer below one frame"),
+        _vm("c15", "c15_read_upvalue_depth0", "thorough", dispatches=2, bounds="ReadUpvalue outside a closure"),
+        _vm("c15", "c15_stackoverflow_depth0", "thorough", dispatches=2, bounds="ScalarInt on a full stack"),
+        _vm("c15", "c15_timeout", dispatches=2, bounds="budget exhausted before the second instruction"),
+    ],
+)
+
+# --------------------------------------------------------------------------- C17
+PROPS["C17"] = dict(
+    functions=["Vm::{run,clear}, RuntimeData::{clear,clear_objects,free_object}, ValueStack::clear, BoundedStack::clear"],
+    bounds="one VM with small limits; clear() after a stack value, a global, a call frame, an object and an arbitrary "
+           "(solver-chosen) collection threshold; three successive runs of a balanced 3-instruction program and of a "
+           "failing one (with clear) on a call stack of capacity 2",
+    outside="registered natives and auxiliary data (not touched by clear), run histories longer than three, programs "
+            "ending in Timeout/OutOfMemory/native error, accounted memory across runs",
+    explanation="'Behaves like a fresh VM' is decided as equality of every state component a later run can read; "
+                "'does not leak' as the call depth returning to its value before the run.",
+    assumptions=["state observed through the verif-hooks accessors"],
+    level_text="Bounded model checking with Kani/CBMC: clear() restores every interpreter state component to that of a "
+               "fresh VM for any earlier collection threshold, and repeated runs do not consume call frames.",
+    level_note="Trusted: Kani/CBMC; state components enumerated in harness/src/c17.rs.",
+    design_ref="DESIGN.md §3 C17",
+    cap=dict(quick=420, thorough=1800), mem_gb=18, jobs=3,
+    harnesses=[
+        _vm("c17", "c17_clear_equals_fresh", dispatches=0, bounds="clear() vs fresh VM, any earlier threshold"),
+        _vm("c17", "c17_run_three_times_ok", dispatches=4, bounds="[int x][Pop][Exit] run three times, call stack capacity 2"),
+        _vm("c17", "c17_run_three_times_failing", "thorough", dispatches=4, bounds="failing program, clear, run again"),
+    ],
 )
